@@ -2206,6 +2206,11 @@ class EmptyRDD(RDD):
     def __init__(self, context):
         RDD.__init__(self, [], context)
 
+    def persist(self, storageLevel=None):
+        # nothing to cache; and it stays the dataset without partitions
+        # that Context.union and the streams recognise by its class
+        return self
+
 
 # pickle-able helpers
 
